@@ -357,6 +357,28 @@ def two_part_and_shapes(ctx, Time, drv, epochs):
                     ctx.disagree("TimeDateTime._to_jds (two-part)", {"scale": scale, "day": sel[i][0], "us": sel[i][1]}, a, [str(k1[i]), str(k2[i])])
         except Exception as e:
             ctx.violate("construct-datetime-two-part", f"{type(e).__name__}: {e}", {"scale": scale})
+        # scalar and list forms of the two-part inputs denote the same instant as the array element
+        for i in rng.sample(range(len(sel)), min(len(sel), 6)):
+            d, us = sel[i]
+            want_dt = F(4903089, 2) + d + F(us, DAY_US)
+            forms = {
+                "datetime-scalar": lambda: Time(DT2000 + timedelta(days=d), val2=timedelta(microseconds=us), fmt="datetime", scale=scale),
+                "datetime-list": lambda: Time([DT2000 + timedelta(days=d)], val2=[timedelta(microseconds=us)], fmt="datetime", scale=scale),
+                "mjd-scalar": lambda: Time(float(d + 51544), val2=float(F(us, DAY_US)), fmt="mjd", scale=scale),
+                "jd-scalar": lambda: Time(float(F(4903089, 2) + d), val2=float(F(us, DAY_US)), fmt="jd", scale=scale),
+                "jd-list": lambda: Time([float(F(4903089, 2) + d)], val2=[float(F(us, DAY_US))], fmt="jd", scale=scale),
+            }
+            for name, f in forms.items():
+                case = {"scale": scale, "form": name, "day": d, "us": us}
+                ctx.count(f"two-part:{name}")
+                try:
+                    t = f()
+                except Exception as e:
+                    ctx.violate(f"two-part-raises:{name}", f"{type(e).__name__}: {e}", case)
+                    continue
+                got = frac(np.atleast_1d(np.asarray(t.jd1, dtype=float))[0]) + frac(np.atleast_1d(np.asarray(t.jd2, dtype=float))[0])
+                if abs(got - want_dt) > 2 * NS:
+                    ctx.violate(f"two-part-value:{name}", f"two-part {name} input is off by {float((got - want_dt) * 86400):.6g} s", case)
 
 
 def replay(payload):
